@@ -423,6 +423,7 @@ func (md *model) apply(op opSpec) (next *model, wf bool, ambiguous bool) {
 		r.cs = ""
 		r.cs = r.canon()
 		n.rules[[2]string{r.Group, r.ID}] = r
+		n.sa = nil // drop the sorted cache (validity() may have filled it in the middle of a composite update)
 		return true
 	}
 	switch op.Kind {
